@@ -277,6 +277,10 @@ func (o *Oracle) judgeBackChannel(e *Exchange, ep string, methodOK bool) {
 				o.violate(e, "C08.A2-only-genuine-codes", "/redeem returned tokens for a code that does not open under the code key")
 				return
 			}
+			if kind, known := o.sealed[code]; known && kind != "auth-code" && kind != "minted" {
+				// an authorization code is a value sso-auth handed out AS a code; its cookies are sealed under another key
+				o.violate(e, "C08.A2-only-genuine-codes", fmt.Sprintf("/redeem returned tokens for a value that sso-auth issued as %s, not as an authorization code", kind), "facet", "not-a-code")
+			}
 			if _, known := o.sealed[code]; !known {
 				o.violate(e, "C02.A4-only-unmodified-values-open", fmt.Sprintf("a code that was never issued by sso-auth was redeemed (derived by %q)", o.corrupted[code]), "kind", "auth-code", "how", o.corrupted[code])
 			}
@@ -561,6 +565,28 @@ func (o *Oracle) judgeAuthSignOut(e *Exchange) {
 			o.res.probe("signed_out")
 			o.signedOut[S.RefreshToken] = e.Done
 			o.signedOut[S.AccessToken] = e.Done
+		}
+	}
+	// "(only with a valid signed in-domain return address) … and returns the browser": the browser is sent to a
+	// return address that this very request carried with a valid fresh signature, and to no other
+	if redirected {
+		loc := e.RespHdr.Get("Location")
+		okTarget := false
+		for _, ru := range formValuesOf(e, "redirect_uri") {
+			if ru != loc {
+				continue
+			}
+			for _, sg := range formValuesOf(e, "sig") {
+				for _, ts := range formValuesOf(e, "ts") {
+					if validSig(ru, sg, ts, ProxyClientSecret, o.abs(e.At)) && inRootDomains(resolveHost3986("http://x.invalid/", ru), o.w.Cfg.RootDomains) {
+						okTarget = true
+					}
+				}
+			}
+		}
+		o.res.cover(fmt.Sprintf("C19.A5|returns-to-signed-address|%v", okTarget))
+		if !okTarget {
+			o.violate(e, "C19.A5-returns-to-the-signed-address", fmt.Sprintf("after the sign-out the browser is sent to %q, which is not a return address this request carried with a valid signature", clip(loc, 100)))
 		}
 	}
 	if !revOK && rev != nil {
